@@ -377,7 +377,7 @@ PROPS = {
                   "name {absent, failed-never-loaded, serving(version)}; versions are carried in the SOA serial",
         rule="96 (quick) / 640 (thorough) daemon histories of 6-14 (quick) / 10-40 (thorough) reload steps over six "
              "nested and unrelated zone names (z., sub.z., a.sub.z., b.z., other., deep.er.other.); per step each zone "
-             "with probability 0.3 gets a new file version (valid / syntax error / missing apex NS / file removed) and "
+             "with probability 0.3 gets a new file version (valid / valid with a validation warning / syntax error / missing apex NS / missing apex NS plus a warning / file removed) and "
              "with probability 0.2 is added to or removed from the configuration at a random position, with probability 0.1 "
              "gets a newer version staged under its other path with an mtime 5 s OLDER than the file loaded in that step, and "
              "with probability 0.1 the configuration switches to the staged path (a changed path must be loaded whatever the "
